@@ -660,12 +660,6 @@ func readHeaderRules(c *Ctx) {
 		if f2 == nil {
 			continue
 		}
-		first := ""
-		calls := callsIn(f2.Decl.Body, false)
-		if len(calls) > 0 {
-			first = calleeKey(info, calls[0])
-		}
-		R.Check(first == "casblob.readHeader", "R08d", c.Cfg+key+":starts-with-readHeader", c.P.Pos(f2.Decl.Pos()), key+" validates the header before anything else", "first call is "+first)
 		// path rule: a reader is handed out only after readHeader succeeded
 		var hb *Base
 		nsucc := 0
@@ -717,6 +711,7 @@ func readHeaderRules(c *Ctx) {
 				}
 			},
 		})
+		b2.InlineOwnHelpers()
 		x := NewExec(c.P.FlowOf(fa), b2)
 		x.Run(newSt())
 		R.Check(seen > 0, "R08d", c.Cfg+kAvail+":reader-error-paths", "", "reader-error paths were found in availableOrTryProxy", "none found")
